@@ -52,12 +52,18 @@ class Lab:
         data = {fn: t for fn, t in fields}
         return I.call(new, [MS, name, (S,), data], {})
 
-    def array(self, name, shape, order, item):
+    def array(self, name, shape, order, item, spell=None):
+        """spell: how a class STATEMENT gives the axis order -- "C", "F", or "" for no `_order` at all (default C)"""
         I = self.I
         MA = I.global_lookup("array", "MetaArray")
         A = I.global_lookup("array", "Array")
         new = I.class_attrs(MA)["__new__"]
         data = {"_itemtype": item, "_shape": tuple(shape), "_order": tuple(order)}
+        if spell is not None:
+            if spell:
+                data["_order"] = spell
+            else:
+                del data["_order"]
         return I.call(new, [MA, name, (A,), data], {})
 
     def value(self, tag, shape, nplike=False, elem=None):
@@ -317,7 +323,13 @@ def array_descriptors(tier):
         for mask in itertools.product([False, True], repeat=nd):
             for order in orders:
                 for item in ("static", "dynamic"):
-                    yield nd, mask, order, item
+                    yield nd, mask, order, item, None
+    # class statements spell the order "C" / "F" or leave it out (PF54: kept as a string for dynamic shapes)
+    for nd in (2, 3) if tier == "thorough" else (2,):
+        for mask in itertools.product([False, True], repeat=nd):
+            for spell, order in (("C", tuple(range(nd))), ("F", tuple(range(nd - 1, -1, -1))), ("", tuple(range(nd)))):
+                for item in ("static", "dynamic"):
+                    yield nd, mask, order, item, spell
 
 
 def _elem_size_atom(idx):
@@ -331,12 +343,12 @@ def l1(cx):
     lab = Lab(m)
     I, W = lab.I, lab.W
     nd_count = 0
-    for nd, mask, order, itemkind in array_descriptors(cx.tier):
+    for nd, mask, order, itemkind, spell in array_descriptors(cx.tier):
         nd_count += 1
         isz = 24 if itemkind == "static" else None
         cshape = [None if mask[k] else STATIC_DIMS[k] for k in range(nd)]
         dims = [DIMS[k] if mask[k] else STATIC_DIMS[k] for k in range(nd)]
-        label = f"nd={nd} shape={cshape} order={list(order)} item={itemkind}"
+        label = f"nd={nd} shape={cshape} order={list(order) if spell is None else repr(spell) if spell else 'not given'} item={itemkind}"
         out = {}
 
         def thunk():
@@ -350,7 +362,7 @@ def l1(cx):
                 item.attrs["_inspect_args"] = Builtin("it._inspect_args", insp)
             else:
                 item = W.desc("it", isz)
-            cls = lab.array("Arr", cshape, order, item)
+            cls = lab.array("Arr", cshape, order, item, spell)
             out["cls"] = cls
             val = lab.value("e", dims)
             info = I.call(I.getattr(cls, "_inspect_args"), [val], {})
@@ -508,7 +520,7 @@ def ps(cx):
     I, W = lab.I, lab.W
     n = 0
     # ---- arrays
-    for nd, mask, order, itemkind in array_descriptors(cx.tier):
+    for nd, mask, order, itemkind in [d[:4] for d in array_descriptors(cx.tier) if d[4] is None]:
         if cx.tier != "thorough" and itemkind == "static" and nd == 3 and order not in ((0, 1, 2), (1, 2, 0)):
             continue
         n += 1
@@ -1659,7 +1671,7 @@ def t1(cx):
     I, W = lab.I, lab.W
     n = 0
     # ---- arrays nested in a struct (parent offset != 0), every descriptor
-    for nd, mask, order, itemkind in array_descriptors(cx.tier):
+    for nd, mask, order, itemkind in [d[:4] for d in array_descriptors(cx.tier) if d[4] is None]:
         isz = 24 if itemkind == "static" else None
         cshape = [None if mask[k] else STATIC_DIMS[k] for k in range(nd)]
         dims = [DIMS[k] if mask[k] else STATIC_DIMS[k] for k in range(nd)]
